@@ -152,6 +152,9 @@ var sharedTemplates = []map[string]string{
 	{"main.p": "add_pattern(\"mine\", \"[a-z]+\")\nif true {\n add_pattern(\"inner\", \"%{mine}\\\\d\")\n ok = grok(_, \"%{inner:x}\")\n probe(\"ok\", ok, x)\n}\nuse(\"lib.p\")", "lib.p": "add_key(from_lib, len(message))\ngrok(_, \"%{NOTSPACE:first}\")\nset_tag(libtag, \"v\")"},
 	{"main.p": "a = [3, 2, 1][::-1]\nm = {\"k\": a}\nm[\"k\"][0] = len(message)\nprobe(\"m\", m)\nadd_key(js, m)\nuse(\"lib.p\")\nuse(\"lib.p\")", "lib.p": "x = 0\nfor ; x < 3; x = x + 1 { add_key(cnt, x) }\nuppercase(message)\nrename(msg2, message)"},
 	{"main.p": "cast(n1, \"str\")\nstrfmt(s, \"%v-%v\", n1, message)\nreplace(message, \"[0-9]+\", \"#\")\nadd_key(ts, \"2021-05-27 06:54:14.760 UTC\")\ndefault_time(ts)\nset_measurement(\"mm\")\nxml(x, \"//b/@id\", xid)\nsql_cover(q)"},
+	{"main.p": "v = 1\nw = \"top\"\nl5 = [1]\nif n1 == 5 {\n x = 1 + \"a\"\n}\nfor i in [1, 2] {\n if message == \"\" { y = l5[5] }\n}\nadd_key(ok, v)"},
+	{"main.p": "probe(\"names\", v, w, x, y, i)\nadd_key(seen_v, v)\nadd_key(seen_w, w)"},
+	{"main.p": "a = [0, 0]\na[0] = len(message)\na[1] += 7\nh = [[0], [1]]\nh[0][0] += len(message)\nm = {\"k\": [0]}\nm[\"k\"][0] = len(message)\nprobe(\"a\", a, h, m)\nadd_key(sum, a[0] + a[1] + h[0][0] + m[\"k\"][0])"},
 	{"main.p": "if n1 == 5 { x = 1 + \"a\" }\nadd_key(ok, true)\nuse(\"lib.p\")", "lib.p": "if message == \"\" { exit() }\ngrok(_, \"%{GREEDYDATA:all}\")\nadd_key(seen, all)"},
 }
 
